@@ -196,6 +196,10 @@ def scenario(w):
                             variant, variant, variant, 'raised %r' % (e1 or e2,) if (e1 or e2) else 'results differ'))
             return
 
+    def set_conf(new):
+        nonlocal conf
+        conf = new
+
     def check_store(after):
         if not same_value(conf.store, model):
             w.violation('keypath', after, 'after %s the configuration holds %r, nested indexing gives %r (history: %s)'
@@ -363,9 +367,9 @@ def scenario(w):
     edits = valid_edits(variant)
     for step in range(nops):
         if mode == 'addressing':
-            kind = ch.wchoice('op', ['set', 'get', 'del', 'persist', 'decoy'], [5, 2, 2, 2, 1])
+            kind = ch.wchoice('op', ['set', 'get', 'del', 'persist', 'decoy', 'rebuild'], [5, 2, 2, 2, 1, 1])
         else:
-            kind = ch.wchoice('op', ['set', 'del', 'persist', 'behave', 'decoy'], [5, 1, 2, 3, 1])
+            kind = ch.wchoice('op', ['set', 'del', 'persist', 'behave', 'decoy', 'rebuild'], [5, 1, 2, 3, 1, 1])
         if kind in ('set', 'get', 'del') and mode == 'addressing':
             paths = ['/'.join(p) for p in all_paths(model)]
             src = ch.wchoice('path.src', ['existing', 'new-leaf', 'missing-parent', 'too-deep', 'under-scalar'], [6, 3, 1, 1, 1])
@@ -389,6 +393,26 @@ def scenario(w):
                 if not do_edit(kind, path):
                     return
             if not read_all():
+                return
+        elif kind == 'rebuild':
+            # the documented constructor: a configuration built from a plain dictionary of the same options
+            how = ch.pick('rebuild.how', 2)
+            try:
+                if how == 0:
+                    fresh = S.SiftConfig(conf.sift_type, copy.deepcopy(model))
+                else:
+                    fresh = S.SiftConfig(conf.sift_type)
+                    fresh.update(copy.deepcopy(model))
+            except Exception as e:
+                C.reraise_if_harness(e)
+                w.violation('keypath', 'rebuild:raised', 'building a SiftConfig from its own options raised %r' % (e,))
+                return
+            hist.append('rebuild(%s)' % ['constructor', 'update'][how])
+            if fresh.sift_type != conf.sift_type or not same_value(fresh.store, model):
+                w.violation('keypath', 'rebuild', 'a SiftConfig built from the options %r holds %r' % (norm(model), norm(fresh.store)))
+                return
+            set_conf(fresh)
+            if not check_store('rebuild') or not read_all():
                 return
         elif kind == 'decoy':
             # another configuration object is created and edited; this one must not notice
